@@ -83,9 +83,6 @@ def seqRep (q : LZ.Seq) : Gen.Seq :=
   { LitLen := UInt32.ofInt (q.litLen : Int), MatchLen := UInt32.ofInt (q.matchLen : Int),
     Offset := UInt32.ofInt (q.offset : Int), Aux := 0 }
 
-theorem bind_trans {α β : Type} {a : Res α} {v : α} {f : α → Res β} {r : Res β}
-    (h1 : a = Res.ok v) (h2 : f v = r) : Res.bind a f = r := by rw [h1]; exact h2
-
 set_option maxHeartbeats 1000000 in
 theorem loop1_step (grow : Nat → Nat → Nat) (inputEnd mm : Int) (A : List UInt8) (L E mmN ws : Nat)
     (fuel i li : Nat) (ia lia : Int) (s : Gen.hashParser) (blk : Block')
@@ -156,10 +153,10 @@ theorem loop1_step (grow : Nat → Nat → Nat) (inputEnd mm : Int) (A : List UI
       intro hc; apply hvA; apply UInt32.toNat_inj.mp; rw [lo32_eq]; exact hc
     refine ⟨(ofHashT s.hashDictionary.hash t1, none), by rw [hnf, if_pos hA], t1, ht1, rfl, ?_,
       by intro st k o h; cases h⟩
-    rw [if_pos hvA]
+    rw [if_pos (by simpa using hvA)]
   have hA : ¬ lo32 (y &&& s.hashDictionary.hash.mask) ≠ (ofEntry ent).2 := by
     intro hc; apply hc; rw [← lo32_eq, Decidable.not_not.mp hvA]; rfl
-  rw [if_neg hvA]
+  rw [if_neg (by simpa using hvA)]
   rw [if_neg hA] at hnf
   -- B: the candidate is outside the window
   have hj1 : (ofEntry ent).1 = ent.pos.toNat := rfl
@@ -190,12 +187,15 @@ theorem loop1_step (grow : Nat → Nat → Nat) (inputEnd mm : Int) (A : List UI
   simp only [tz_shr]
   have hml := matchLenInline_nf (A.take L) (A.drop L) (A.take (E + 7)) E mmN i j y z hmem hy hz
   rw [hpl] at hml
-  have hk8 : (if ((BytesW.tz64 (z ^^^ y) >>> 3 : Nat) : Int) > Int.ofNat L - ia then Int.ofNat L - ia
-      else ((BytesW.tz64 (z ^^^ y) >>> 3 : Nat) : Int)) =
+  -- the clamp `k > len(p)-i` in whatever spelling (operand order, arm order, hoisted `len(p)-i`): as a `min`
+  have hk8a : Min.min (((BytesW.tz64 (z ^^^ y) >>> 3 : Nat)) : Int) (Int.ofNat L - ia) =
       (((if BytesW.tz64 (z ^^^ y) >>> 3 > L - i then L - i else BytesW.tz64 (z ^^^ y) >>> 3 : Nat)) : Int) := by
-    rw [hia]; show (if _ > (L : Int) - _ then (L : Int) - _ else _) = _
-    split <;> split <;> omega
-  rw [hk8]
+    split <;> int_omega
+  have hk8b : Min.min (Int.ofNat L - ia) (((BytesW.tz64 (z ^^^ y) >>> 3 : Nat)) : Int) =
+      (((if BytesW.tz64 (z ^^^ y) >>> 3 > L - i then L - i else BytesW.tz64 (z ^^^ y) >>> 3 : Nat)) : Int) := by
+    split <;> int_omega
+  simp only [LZ.GenProps.gen_min, ite_lt_min, ite_le_min, ite_lt_max, ite_le_max]
+  simp only [hk8a, hk8b]
   have hk8le : (if BytesW.tz64 (z ^^^ y) >>> 3 > L - i then L - i else BytesW.tz64 (z ^^^ y) >>> 3) ≤ L - i := by
     split <;> omega
   generalize (if BytesW.tz64 (z ^^^ y) >>> 3 > L - i then L - i else BytesW.tz64 (z ^^^ y) >>> 3) = k8
@@ -226,20 +226,13 @@ theorem loop1_step (grow : Nat → Nat → Nat) (inputEnd mm : Int) (A : List UI
     obtain ⟨hmin, hkkLc⟩ := hkk
     subst hkkLc
     rw [hme, Option.map_some] at hml
-    -- the re-indexing loop
-    obtain ⟨jj, t2, ht2, hr3, hl3⟩ := loop3_eq grow
-      (if ia + (kk : Int) > inputEnd then inputEnd else ia + (kk : Int)) (y &&& s.hashDictionary.hash.mask)
-      { arr := A, len := E + 7 } (Gen.hashValue (y &&& s.hashDictionary.hash.mask) s.hashDictionary.hash.shift)
-      (Min.min (i + kk) E - (i + 1)) fuel (i + 1) (ia + 1) (setT s t1) (by omega)
-      (by rw [hia, hE]; split <;> omega) (by omega)
+    -- the re-indexing loop (INSTANTIATION of the lemma about the generated loop function, 1 of 2)
+    obtain ⟨t2, ht2, hr3, hl3⟩ := loop3_eq grow { arr := A, len := E + 7 }
+      (Min.min (i + kk) E - (i + 1)) fuel (i + 1) (setT s t1) (by omega)
       (by show _ ∨ _ ≤ E + 7; omega) c ht1
     rw [hpd] at hr3
     have hr3' : ProbeW.insertRangeW (ofHashT s.hashDictionary.hash t1) (List.take (E + 7) A) (i + 1)
         (Min.min (i + kk) E - (i + 1)) = some (ofHashT s.hashDictionary.hash t2) := hr3
-    have hl3' : hashParser_Parse_loop_3 grow (if ia + (kk : Int) > inputEnd then inputEnd else ia + (kk : Int))
-        (y &&& s.hashDictionary.hash.mask) { arr := A, len := E + 7 }
-        (Gen.hashValue (y &&& s.hashDictionary.hash.mask) s.hashDictionary.hash.shift) fuel (ia + 1) (setT s t1) =
-        Res.ok (jj, setT s t2) := hl3
     refine ⟨(ofHashT s.hashDictionary.hash t2, some (i, kk, i - j)), ?_, t2, ht2, rfl, ?_, ?_⟩
     · rw [hnf, hml, Option.bind_some]
       dsimp only
@@ -257,11 +250,12 @@ theorem loop1_step (grow : Nat → Nat → Nat) (inputEnd mm : Int) (A : List UI
           refine bind_trans (slice_okI _ (Int.ofNat j + 8) (Int.ofNat L) (j + 8) L (by show (j : Int) + 8 = _; omega) rfl
             (by omega) hLA) ?_
           refine bind_trans (slice_okI _ (ia + 8) (Int.ofNat L) (i + 8) L (by omega) rfl (by omega) hLA) ?_
-          obtain ⟨e, kN', r', q', hl2, hr', hq', hdisj⟩ := loop2_eq grow (y &&& s.hashDictionary.hash.mask) (L - i) fuel 8
+          -- (INSTANTIATION of the lemma about the generated loop function, 2 of 2)
+          obtain ⟨e, kN', r', q', hl2, hr', hq', hdisj⟩ := loop2_eq (L - i) fuel 8
             ((8 : Nat) : Int) { arr := A.drop (j + 8), len := L - (j + 8) } { arr := A.drop (i + 8), len := L - (i + 8) }
             (by show L - (i + 8) < 8 * (L - i); omega) (by omega) rfl (swf_drop _ _ _ hLA) (swf_drop _ _ _ hLA)
             (by show L - (i + 8) ≤ L - (j + 8); omega)
-          refine bind_trans hl2 ?_
+          refine bind_trans (hl2 _ _) ?_
           dsimp only
           rw [data_drop, data_drop, hme'] at hdisj
           rcases hdisj with ⟨he, hm⟩ | ⟨he, hm⟩
@@ -271,14 +265,16 @@ theorem loop1_step (grow : Nat → Nat → Nat) (inputEnd mm : Int) (A : List UI
           · rw [if_neg he]
             injection hm with hm
             by_cases hq0 : q'.len > 0
-            · rw [if_pos (by show (q'.len : Int) > 0; omega), gen_getLE64 r' hr', bind_ok, gen_getLE64 q' hq', bind_ok,
-                bind_ok]
-              skip
-              have htv := tail_val r'.data q'.data kN' (by rw [data_length hq']; exact hq0)
+            · have htv := tail_min r'.data q'.data kN' (by rw [data_length hq']; exact hq0)
               rw [data_length hq'] at htv
-              rw [hm]
-              exact congrArg Res.ok htv
-            · rw [if_neg (by show ¬ (q'.len : Int) > 0; omega), bind_ok]
+              rw [if_pos (by int_omega), gen_getLE64 r' hr', bind_ok, gen_getLE64 q' hq', bind_ok,
+                bind_ok]
+              try simp only [tz_shr]
+              rw [hm, htv]
+              -- the clamp `b > len(q)` in whatever spelling
+              refine congrArg Res.ok ?_
+              (repeat' split) <;> int_omega
+            · rw [if_neg (by int_omega), bind_ok]
               unfold BytesW.matchExtTail at hm
               rw [if_neg (by rw [data_length hq']; exact hq0)] at hm
               rw [hm]
@@ -290,7 +286,7 @@ theorem loop1_step (grow : Nat → Nat → Nat) (inputEnd mm : Int) (A : List UI
       · dsimp only
         refine bind_trans (slice_okI _ lia ia li i hlia hia hli (by show i ≤ A.length; omega)) ?_
         dsimp only
-        refine bind_trans hl3' ?_
+        refine bind_trans (hl3 _ _ _ _ (by omega) (by (repeat' split) <;> int_omega)) ?_
         dsimp only
         have e1 : ia + (kk : Int) - 1 + 1 = ((i + kk : Nat) : Int) := by omega
         have e2 : ia + (kk : Int) = ((i + kk : Nat) : Int) := by omega
